@@ -271,6 +271,40 @@ def write_ndjson(path, rows):
             f.write(json.dumps(r, separators=(",", ":"), sort_keys=True) + "\n")
 
 
+def validate_records(ctx, module, cfg, path, props, describe, wd, drift=False, max_reports=3, timeout=1500, what=None):
+    """TLC-validate a file of records (one state per line, deterministic monitor `module`/`cfg`).
+    On a violated invariant in `props` the offending record is reported through describe(record, invariant) -> (text, signature)
+    and validation continues with the remaining records.  drift=True: the invariants are conformance only (never a VIOLATION)."""
+    import re as _re
+    remaining = path
+    total = len(read_ndjson(path))
+    for attempt in range(max_reports + 3):
+        r = tlc(module, cfg, workers=1, timeout=timeout, env={"VERIF_TRACE": remaining}, keep_out=True)
+        if r.violated in props:
+            m = _re.findall(r"/\\ l = (\d+)", r.trace[-1] if r.trace else "")
+            line = int(m[-1]) - 1 if m else 1
+            cur = read_ndjson(remaining)
+            rec = cur[line - 1]
+            text, sig = describe(rec, r.violated)
+            if drift:
+                ctx.drift.append(text)
+            else:
+                rp = ctx.save_replay("rec_%s_%d.json" % (r.violated, attempt), rec)
+                ctx.report(text, rp, sig)
+            rest = cur[line:]
+            if not rest or (drift and len(ctx.drift) >= max_reports) or (not drift and len(ctx.violations) >= max_reports):
+                return
+            remaining = os.path.join(wd, "rest_%s_%d.ndjson" % (cfg, attempt))
+            write_ndjson(remaining, rest)
+            continue
+        if r.violated or r.error or not r.finished:
+            raise Inconclusive("%s/%s: %s %s\n%s" % (module, cfg, r.violated, r.error, r.out[-1500:]))
+        if not drift:
+            ctx.coverage["states"] += r.distinct
+            ctx.coverage["traces_validated_against_impl"] += max(r.distinct - 1, 0)
+        return
+
+
 class Ctx:
     """Per-run context: accumulates evidence and verdict for one property."""
 
